@@ -47,10 +47,12 @@ POS_KINDS = {'x', 'y', 'xy'}
 
 
 class K:
-    __slots__ = ('kind', 'partner', 'per_row', 'rtol', 'atol', 'unit', 'aamp', 'md', 'tie')
+    __slots__ = ('kind', 'partner', 'per_row', 'rtol', 'atol', 'unit', 'aamp', 'md', 'tie', 'scale')
 
     def __init__(self, kind, partner=None, per_row=True, rtol=None, atol=None, unit=None, aamp=None, md=False,
-                 tie=None):
+                 tie=None, scale=None):
+        self.scale = scale if scale is not None else unit   # how the output scales with the data magnitude
+        #                        ('data': linearly, 'data2': quadratically, None: not at all) -> absolute tolerance
         self.tie = tie         # masked cutouts: a pixel may be masked on one side only if |value| <= tie*max|data| on
         #                        both sides (tie band of the `weight == 0` predicate on rounded weights)
         self.kind, self.partner, self.per_row = kind, partner, per_row
@@ -374,12 +376,31 @@ def _opt(rng, *choices):
     return choices[int(rng.integers(0, len(choices)))]
 
 
+APER_FORMS = ['plain', 'plain', 'plain', 'deg', 'arcmin', 'list', 'np0d']
+
+
 def build_aperture(spec):
+    """Call form of the arguments (generic axis ii): theta as a Quantity in deg / arcmin, positions as a list of
+    tuples, shape parameters as numpy scalars - all equivalent to the plain float / ndarray form."""
+    import astropy.units as u
     import photutils.aperture as pa
     kw = dict(spec['p'])
+    form = spec.get('form', 'plain')
+    pos = spec['pos']
     if spec.get('theta') is not None:
-        kw['theta'] = spec['theta']
-    return getattr(pa, spec['cls'])(spec['pos'], **kw)
+        th = spec['theta']
+        if form == 'deg':
+            th = (th * u.rad).to(u.deg)
+        elif form == 'arcmin':
+            th = (th * u.rad).to(u.arcmin)
+        kw['theta'] = th
+    if form == 'list':
+        a = np.asarray(pos, float)
+        pos = [tuple(float(v) for v in row) for row in a] if a.ndim == 2 else tuple(float(v) for v in a)
+    elif form == 'np0d':
+        # numpy scalars (0-d ARRAYS are rejected with the documented "must be a positive scalar" ValueError)
+        kw = {k: (np.float64(v) if k != 'theta' else v) for k, v in kw.items()}
+    return getattr(pa, spec['cls'])(pos, **kw)
 
 
 def aper_extent(spec):
@@ -405,6 +426,12 @@ APER_CLASSES = ['CircularAperture', 'CircularAnnulus', 'EllipticalAperture', 'El
 
 def draw_aperture(rng, cls, pos):
     """Aperture spec with asymmetric shape parameters; every extent <= 11 px."""
+    d = _draw_aperture(rng, cls, pos)
+    d['form'] = APER_FORMS[int(rng.integers(0, len(APER_FORMS)))]
+    return d
+
+
+def _draw_aperture(rng, cls, pos):
     th = float(rng.uniform(0, np.pi))
     if rng.random() < 0.15:
         th = float(_opt(rng, 0.0, np.pi / 4, np.pi / 2, 3 * np.pi / 4))
@@ -599,13 +626,13 @@ SPEC_APSTATS = {
     'centroid': K('xy', md=True), 'covar_sigx2': K('free', 'covar_sigy2', md=True), 'covar_sigxy': K('free', md=True),
     'covar_sigy2': K('free', 'covar_sigx2', md=True), 'covariance': K('mat2', md=True), 'covariance_eigvals': K('free', md=True),
     'cutout_centroid': K('cxy', md=True), 'cxx': K('free', 'cyy', md=True), 'cxy': K('free', md=True), 'cyy': K('free', 'cxx', md=True),
-    'data_cutout': K('img'), 'data_sumcutout': K('img'), 'error_sumcutout': K('img', aamp=1e-7),   # sqrt(weight rounding ~1e-15) * error: honest error up to ~3e-8 * max(error)
+    'data_cutout': K('img', scale='data'), 'data_sumcutout': K('img', scale='data'), 'error_sumcutout': K('img', aamp=1e-7),   # sqrt(weight rounding ~1e-15) * error: honest error up to ~3e-8 * max(error)
    
     'eccentricity': K('free', md=True), 'ellipticity': K('free', md=True), 'elongation': K('free', md=True), 'fwhm': K('free', md=True),
-    'gini': K('free'), 'id': K('free'), 'ids': K('free'), 'inertia_tensor': K('mat2', md=True),
+    'gini': K('free'), 'id': K('free'), 'ids': K('free'), 'inertia_tensor': K('mat2', md=True, scale='data'),
     'isscalar': K('free', per_row=False), 'mad_std': K('free', unit='data'), 'max': K('free', unit='data'),
     'mean': K('free', unit='data'), 'median': K('free', unit='data'), 'min': K('free', unit='data'),
-    'mode': K('free', unit='data'), 'moments': K('mom', aamp=1e-4), 'moments_central': K('mom', md=True),
+    'mode': K('free', unit='data'), 'moments': K('mom', aamp=1e-4), 'moments_central': K('mom', md=True, scale='data'),
     'n_apertures': K('free', per_row=False), 'orientation': K('theta_deg', md=True), 'properties': K('skip'),
     'semimajor_sigma': K('free', md=True), 'semiminor_sigma': K('free', md=True), 'sky_centroid': K('skip'),
     'sky_centroid_icrs': K('skip'), 'std': K('free', unit='data'), 'sum': K('free', unit='data'),
@@ -638,9 +665,9 @@ def prep_apstats(rng, scene):
     lb = _opt(rng, None, None, 'scalar', 'array')
     local_bkg = None
     if lb == 'scalar':
-        local_bkg = float(rng.normal(0, 1))
+        local_bkg = float(rng.normal(0, 1)) * scene['sigma']
     elif lb == 'array':
-        local_bkg = rng.normal(0, 1, n)
+        local_bkg = rng.normal(0, 1, n) * scene['sigma']
     return dict(aper=ap, use_error=_use(rng), use_mask=use_mask, special=special,
                 moved_draw=_opt(rng, None, None, 'iadd', 'isub', 'assign', 'assign_mutated'),
                 clip=_opt(rng, None, None, 3.0, 2.5), sum_method=_opt(rng, 'exact', 'exact', 'center', 'subpixel'),
@@ -788,11 +815,16 @@ def run_peaks(s, o):
     for c in t.colnames:
         out[c] = _col(t, c)
     if o['footprint'] is not None:
-        hy, hx = (np.array(o['footprint'].shape) // 2 + 1)
+        hy, hx = (int(v) for v in np.array(o['footprint'].shape) // 2)
     else:
         b = o['box_size']
         by, bx = (b, b) if np.isscalar(b) else b
-        hy, hx = by // 2 + 1, bx // 2 + 1
+        hy, hx = by // 2, bx // 2
+    # documented footprint of a peak: its box / footprint, and the border strip when border_width is given
+    bw = o['border_width']
+    if bw is not None:
+        bwy, bwx = (bw, bw) if np.isscalar(bw) else bw
+        hy, hx = max(hy, int(bwy)), max(hx, int(bwx))
     x, y = np.asarray(t['x_peak'], float), np.asarray(t['y_peak'], float)
     rows = np.column_stack([x - hx, x + hx, y - hy, y + hy])
     return out, rows
@@ -860,8 +892,8 @@ def run_dao(s, o):
                       brightest=o['brightest'], peakmax=_q(o['peakmax'], o), xycoords=o['xycoords'],
                       min_separation=o['min_separation'], **kw)
     t = f(s[o['on']], mask=_mask(s, o))
-    h = max(f.kernel.xradius, f.kernel.yradius, int(np.ceil(o['min_separation']))) + 2
-    return _table_out(t, h, h)
+    # documented footprint of a row = the kernel cutout around its peak (+1: centroid vs peak pixel)
+    return _table_out(t, f.kernel.xradius + 1, f.kernel.yradius + 1)
 
 
 def prep_iraf(rng, scene):
@@ -884,8 +916,7 @@ def run_iraf(s, o):
                        brightest=o['brightest'], peakmax=_q(o['peakmax'], o), xycoords=o['xycoords'],
                        min_separation=o['min_separation'], **kw)
     t = f(s[o['on']], mask=_mask(s, o))
-    h = max(f.kernel.xradius, f.kernel.yradius, int(np.ceil(f.min_separation))) + 2
-    return _table_out(t, h, h)
+    return _table_out(t, f.kernel.xradius + 1, f.kernel.yradius + 1)
 
 
 def prep_starfinder(rng, scene):
@@ -906,8 +937,7 @@ def run_starfinder(s, o):
     f = StarFinder(_q(o['threshold'], o), kern, min_separation=o['min_separation'],
                    exclude_border=o['exclude_border'], brightest=o['brightest'], peakmax=_q(o['peakmax'], o))
     t = f(s[o['on']], mask=_mask(s, o))
-    h = max(kern.shape) // 2 + int(np.ceil(o['min_separation'])) + 2
-    return _table_out(t, h, h)
+    return _table_out(t, kern.shape[1] // 2 + 1, kern.shape[0] // 2 + 1)
 
 
 # ----------------------------------------------------------------------
@@ -983,21 +1013,21 @@ def run_deblend(s, o):
 WIN_ATOL = 5e-4
 SPEC_CAT = {
     'area': K('free'), 'background': K('img', unit='data'), 'background_centroid': K('free', unit='data'),
-    'background_ma': K('img'), 'background_mean': K('free', unit='data'),
+    'background_ma': K('img', scale='data'), 'background_mean': K('free', unit='data'),
     'background_sum': K('free', unit='data'), 'bbox': K('bbox'),
     'bbox_xmax': K('ix', 'bbox_ymax'), 'bbox_xmin': K('ix', 'bbox_ymin'),
     'bbox_ymax': K('iy', 'bbox_xmax'), 'bbox_ymin': K('iy', 'bbox_xmin'),
     'centroid': K('xy'), 'centroid_quad': K('xy'), 'centroid_win': K('xy', atol=WIN_ATOL),
-    'convdata': K('img', unit='data'), 'convdata_ma': K('img'),
+    'convdata': K('img', unit='data'), 'convdata_ma': K('img', scale='data'),
     'covar_sigx2': K('free', 'covar_sigy2', md=True), 'covar_sigxy': K('free', md=True), 'covar_sigy2': K('free', 'covar_sigx2', md=True),
     'covariance': K('mat2', md=True), 'covariance_eigvals': K('free', md=True),
     'cutout_centroid': K('cxy'), 'cutout_centroid_quad': K('cxy'), 'cutout_centroid_win': K('cxy', atol=WIN_ATOL),
     'cutout_maxval_index': K('ciyx'), 'cutout_minval_index': K('ciyx'),
     'cxx': K('free', 'cyy', md=True), 'cxy': K('free', md=True), 'cyy': K('free', 'cxx', md=True),
-    'data': K('img', unit='data'), 'data_ma': K('img'),
+    'data': K('img', unit='data'), 'data_ma': K('img', scale='data'),
     'eccentricity': K('free', md=True), 'ellipticity': K('free', md=True), 'elongation': K('free', md=True), 'equivalent_radius': K('free'),
-    'error': K('img', unit='data'), 'error_ma': K('img'), 'extra_properties': K('skip'),
-    'fwhm': K('free', md=True), 'gini': K('free'), 'inertia_tensor': K('mat2', md=True), 'isscalar': K('free', per_row=False),
+    'error': K('img', unit='data'), 'error_ma': K('img', scale='data'), 'extra_properties': K('skip'),
+    'fwhm': K('free', md=True), 'gini': K('free'), 'inertia_tensor': K('mat2', md=True, scale='data'), 'isscalar': K('free', per_row=False),
     'kron_aperture': K('aper'), 'kron_flux': K('free', unit='data'), 'kron_fluxerr': K('free', unit='data'),
     'kron_radius': K('free'), 'label': K('skip'), 'labels': K('free'),
     'local_background': K('free', unit='data'), 'local_background_aperture': K('aper'),
@@ -1005,7 +1035,7 @@ SPEC_CAT = {
     'maxval_xindex': K('ix', 'maxval_yindex'), 'maxval_yindex': K('iy', 'maxval_xindex'),
     'min_value': K('free', unit='data'), 'minval_index': K('iyx'),
     'minval_xindex': K('ix', 'minval_yindex'), 'minval_yindex': K('iy', 'minval_xindex'),
-    'moments': K('mom'), 'moments_central': K('mom', md=True), 'nlabels': K('free', per_row=False),
+    'moments': K('mom', scale='data'), 'moments_central': K('mom', md=True, scale='data'), 'nlabels': K('free', per_row=False),
     'orientation': K('theta_deg', md=True), 'perimeter': K('free'), 'properties': K('skip'),
     'segment': K('img'), 'segment_area': K('free'), 'segment_flux': K('free', unit='data'),
     'segment_fluxerr': K('free', unit='data'), 'segment_ma': K('img'),
@@ -1022,7 +1052,7 @@ SPEC_CAT = {
     'm_fluxfrac_r50': K('free'), 'm_fluxfrac_r80': K('free'),
     'm_circ_flux': K('free', unit='data'), 'm_circ_fluxerr': K('free', unit='data'),
     'm_kron_apertures2': K('aper'), 'm_circ_apertures': K('aper'),
-    'm_cutout_data': K('img'), 'm_cutout_bbox': K('bbox'), '_notes': K('skip'),
+    'm_cutout_data': K('img', scale='data'), 'm_cutout_bbox': K('bbox'), '_notes': K('skip'),
 }
 
 
@@ -1281,9 +1311,9 @@ SPEC_PROFILE = {
     'radius': K('free', per_row=False), 'profile': K('free', per_row=False, unit='data'),
     'profile_error': K('free', per_row=False, unit='data'), 'area': K('free', per_row=False),
     # 1-D Gaussian fit to the profile: measured max relative deviation 4e-14 (1000 profiles); tolerance 1e-8
-    'gaussian_fwhm': K('free', per_row=False, rtol=1e-8), 'gaussian_params': K('free', per_row=False, rtol=1e-8, atol=1e-8),
-    'gaussian_profile': K('free', per_row=False, rtol=1e-8, atol=1e-8, unit='data'),
-    'data_radius': K('free', per_row=False), 'data_profile': K('free', per_row=False),   # documented as plain ndarray
+    'gaussian_fwhm': K('free', per_row=False, rtol=1e-8), 'gaussian_params': K('free', per_row=False, rtol=1e-8, atol=0.0),
+    'gaussian_profile': K('free', per_row=False, rtol=1e-8, aamp=1e-8, unit='data'),
+    'data_radius': K('free', per_row=False), 'data_profile': K('free', per_row=False, scale='data'),   # documented as plain ndarray
    
     'xycen': K('xy', per_row=False), 'ee_at_r': K('free', per_row=False), 'r_at_ee': K('free', per_row=False),
     'apertures': K('aper', per_row=False),
@@ -1389,10 +1419,11 @@ def prep_model(rng, scene):
     shape = Pair((int(_opt(rng, 7, 9, 10, 13)), int(_opt(rng, 7, 8, 11, 15))))
     if rng.random() < 0.3:
         shape = int(_opt(rng, 7, 9, 12))
-    return dict(xy=XY(np.column_stack([x, y])), flux=rng.uniform(10, 500, n), which=which,
+    sc_ = scene.get('scale', 1.0)
+    return dict(xy=XY(np.column_stack([x, y])), flux=rng.uniform(10, 500, n) * sc_, which=which,
                 sx=rng.uniform(1.0, 3.0, n), sy=rng.uniform(1.0, 3.0, n), theta=rng.uniform(0, np.pi, n),
                 model_shape=shape, use_bbox=_use(rng, 0.25) and which == 'gauss2d',
-                local_bkg=_opt(rng, None, rng.uniform(0, 3, n)),
+                local_bkg=_opt(rng, None, rng.uniform(0, 3, n) * sc_),
                 discretize_method=_opt(rng, 'center', 'center', 'interp', 'oversample'),
                 oversample=int(_opt(rng, 3, 5)))
 
@@ -1558,7 +1589,8 @@ def run_centroid(s, o):
 # 13. Background2D, detect_threshold, calc_total_error (representation only)
 # ----------------------------------------------------------------------
 SPEC_BKG = {'background': K('frame', per_row=False, unit='data'), 'background_rms': K('frame', per_row=False, unit='data'),
-            'background_mesh': K('free', per_row=False), 'background_rms_mesh': K('free', per_row=False),
+            'background_mesh': K('free', per_row=False, scale='data'),
+            'background_rms_mesh': K('free', per_row=False, scale='data'),
             'background_median': K('free', per_row=False, unit='data'),
             'background_rms_median': K('free', per_row=False, unit='data'),
             'npixels_mesh': K('free', per_row=False), 'npixels_map': K('free', per_row=False)}
@@ -1875,14 +1907,21 @@ def run_iso(s, o):
 # ----------------------------------------------------------------------
 # 17. small image-taking tools that have no adapter of their own (representation only)
 # ----------------------------------------------------------------------
-SPEC_TOOLS = _FreeSpec(sf_labels=K('frame', per_row=False), cutout_data=K('img', per_row=False),
+SPEC_TOOLS = _FreeSpec(sf_labels=K('frame', per_row=False), cutout_data=K('img', per_row=False, scale='data'),
+                       local_background=K('free', per_row=False, scale='data'),
+                       mask_get_values=K('free', per_row=False, scale='data'),
+                       do_photometry_sum=K('free', per_row=False, scale='data'),
+                       do_photometry_err=K('free', per_row=False, scale='data'),
+                       depth=K('free', per_row=False, rtol=1e-6, atol=0.0),
                        cutout_bbox=K('bbox', per_row=False), cutout_slices=K('slices', per_row=False),
-                       mask_cutout=K('img', per_row=False), mask_multiply=K('img', per_row=False),
+                       mask_cutout=K('img', per_row=False, scale='data'), mask_multiply=K('img', per_row=False, scale='data'),
                        epsf_data=K('free', per_row=False, rtol=1e-6, atol=1e-6),
                        fit2dg=K('free', per_row=False, rtol=1e-6, atol=1e-6),
-                       fit2dg_flux=K('free', per_row=False, rtol=1e-6, atol=1e-6),
+                       fit2dg_flux=K('free', per_row=False, rtol=1e-6, aamp=1e-6),
                        fitfwhm=K('free', per_row=False, rtol=1e-6, atol=1e-6),
-                       imagepsf_eval=K('free', per_row=False, unit=None))
+                       fitfwhm_nopos=K('free', per_row=False, rtol=1e-6, atol=1e-6),
+                       fit2dg_nopos=K('free', per_row=False, rtol=1e-6, atol=1e-6),
+                       imagepsf_eval=K('free', per_row=False, scale='data'))
 
 
 def prep_tools(rng, scene):
@@ -1923,6 +1962,12 @@ def run_tools(s, o):
     out['fit2dg'] = np.column_stack([np.asarray(split_unit(r[c])[0], float) for c in ('x_fit', 'y_fit', 'fwhm_fit')])
     out['fit2dg_flux'] = r['flux_fit']
     out['fitfwhm'] = np.asarray(fit_fwhm(data, xypos=pos[:3], fit_shape=o['fit_shape'], mask=mask, error=err), float)
+    # the xypos=None form (position from centroid_com of the cutout)
+    cm = None if mask is None else mask[sl]
+    ce = None if err is None else err[sl]
+    out['fitfwhm_nopos'] = np.asarray(fit_fwhm(data[sl], mask=cm, error=ce), float)
+    r0 = fit_2dgaussian(data[sl], fix_fwhm=False, mask=cm, error=ce).results
+    out['fit2dg_nopos'] = np.array([float(split_unit(r0[c])[0][0]) for c in ('x_fit', 'y_fit', 'fwhm_fit')])
     # CutoutImage (a view / copy of the input around a position)
     c = CutoutImage(data, (float(pos[0, 1]), float(pos[0, 0])), tuple(o['cut_shape']), mode=o['cut_mode'])
     out['cutout_data'] = [np.asarray(split_unit(c.data)[0], float)]
@@ -2015,7 +2060,7 @@ TABLE = [
     EP('centroids', prep_centroid, run_centroid, SPEC_CENTROID, {TR, TP, RP},
        must_reach=['photutils.centroids.core:centroid_com', 'photutils.centroids.core:centroid_quadratic',
                    'photutils.centroids.core:centroid_sources', 'photutils.centroids.gaussian:centroid_2dg'],
-       arrays=('data', 'error'), quantity=False),
+       arrays=('data', 'error'), quantity=True),
     EP('PSFPhotometry', prep_psf, run_psf, SPEC_PSF, {TR, RP},
        must_reach=['photutils.psf.photometry:PSFPhotometry.__call__'], arrays=('data', 'error'), nddata=True,
        flavour='stars'),
